@@ -82,7 +82,8 @@ def mech_mutant():
 
 def c15(tier):
     if tier == 'quick':
-        return [mech('triples', 2, 'small'), sel('pairs', 'C15', SEL(2, 'pairs', 'small'), ['Emit']), EXTRAS('C15'), traceB_eval(6000, 200000, 'C15', EVAL_ATTR)]
+        return [mech('triples', 2, 'small'), sel('pairs', 'C15', SEL(2, 'pairs', 'small'), ['Emit']), EXTRAS('C15'),
+                sel('one-step-funcs', 'C15', SEL(1, 'triples', 'small', funcs=True, fset='small'), ['Emit']), traceB_eval(6000, 200000, 'C15', EVAL_ATTR)]
     return [mech('pairs', 2, 'small', 7200), mech('triples', 3, 'small', 7200), mech_mutant(),
             sel('pairs', 'C15', SEL(2, 'pairs', 'full'), ['Emit'], timeout=3600), sel('triples', 'C15', SEL(3, 'triples', 'full'), ['Emit'], timeout=7200),
             traceB_eval(6000, 200000, 'C15', EVAL_ATTR)]
@@ -217,10 +218,9 @@ def traceB_eval(n_quick, n_thorough, props, attribute):
                     continue
                 r = byid.get(rj['id'])
                 text = ''.join(chr(c) for c in r['s'])
-                prop = attribute.get(rj['verdict'])
                 if rj['verdict'] in ('model-rejects-path', 'recorder-key-order'):
                     raise Infra('Trace_Eval: %s for %r' % (rj['verdict'], text))
-                if prop != pid:
+                if pid not in attribute.get(rj['verdict'], ()):
                     continue
                 v = {'property': pid, 'kind': rj['verdict'], 'path': text, 'document': json.dumps(r['doc'])[:2000], 'signature': 'traceB',
                      'detail': 'decode=%s: the real library returned %s, which the specification does not admit' % (r['mode'], json.dumps(r['res'])[:800]),
@@ -237,7 +237,8 @@ def traceB_eval(n_quick, n_thorough, props, attribute):
     return dict(kind='custom', fn=fn)
 
 
-EVAL_ATTR = {'expected-values-got-error': 'C01', 'expected-failure-got-values': 'C01', 'values-differ': 'C01', 'error-not-admissible': 'C15'}
+# which properties a Trace_Eval verdict speaks about ("a query that matches nothing is always reported as an error" is C03 too)
+EVAL_ATTR = {'expected-values-got-error': ('C01',), 'expected-failure-got-values': ('C01', 'C03'), 'values-differ': ('C01',), 'error-not-admissible': ('C15',)}
 
 
 def keys_gen(label, maxatoms, alphabet, timeout=900, simulate=None, depth=None):
@@ -259,9 +260,8 @@ def c07(tier):
         return dict(kind='gen', module='Gen_KeyOrder', label=label, props='C07', constants=dict(MinKeys=lo, MaxKeys=hi), invariants=inv,
                     check_count=False, timeout=kw.pop('timeout', 900), **kw)
     if tier == 'quick':
-        return [st('subsets-2..5', 2, 5), st('subsets-6..9-simulated', 6, 9, timeout=8, simulate=100000, depth=14),
-                st('subsets-10..12-simulated', 10, 12, timeout=8, simulate=100000, depth=14)]
-    return [st('subsets-2..6', 2, 6, timeout=3600), st('subsets-6..12-simulated', 6, 12, timeout=300, simulate=10000000, depth=14)]
+        return [st('subsets-2..5', 2, 5), st('subsets-9..13', 9, 13), st('subsets-6..8-simulated', 6, 8, timeout=8, simulate=100000, depth=14)]
+    return [st('all-subsets-2..13', 2, 13, timeout=7200)]
 
 
 def c20(tier):
@@ -544,6 +544,7 @@ def run(pid, tier, sdir, t0):
             for k, v in summ['counters'].items():
                 counters[k] = counters.get(k, 0) + v
             samples += (summ.get('samples') or [])[:2]
+            nv0 = len(viol) + len(known_hits)
             for v in summ.get('violations') or []:
                 if v['property'] != pid:
                     continue
@@ -552,6 +553,10 @@ def run(pid, tier, sdir, t0):
                     known_hits.append((k, v))
                 else:
                     viol.append(v)
+            lawfails = sum(v for k, v in summ['counters'].items() if k.startswith('lawfail:'))
+            if lawfails and len(viol) + len(known_hits) == nv0:
+                raise Infra('%d model-level laws failed in %s (%s) but the real library shows no deviation: the specification (or jsonpath.peg vs jsonpath.peg.go) is off' %
+                            (lawfails, st['label'], [k for k in summ['counters'] if k.startswith('lawfail:')]))
             if st.get('check_count', True) and ts['distinct'] and not st.get('simulate') and summ['cases'] not in (ts['distinct'], ts['distinct'] - ts['init']) and not st.get('max_cases'):
                 raise Infra('replayer saw %d cases but TLC found %d distinct states (%s)' % (summ['cases'], ts['distinct'], st['label']))
         elif st['kind'] == 'tlc':
